@@ -8,3 +8,6 @@ template class hep::chkpt_with_rng<std::mt19937, hep::vegas_chkpt<double>>;
 template class hep::multi_channel_chkpt<double>;
 template class hep::chkpt_with_rng<std::mt19937, hep::multi_channel_chkpt<double>>;
 template class hep::callback<hep::plain_chkpt_with_rng<std::mt19937, double>>;
+template struct hep::weighted_with_variance<std::vector<hep::mc_result<double>>::const_iterator>;
+template struct hep::weighted_equally<std::vector<hep::mc_result<double>>::const_iterator>;
+template double hep::chi_square_dof<hep::weighted_with_variance, std::vector<hep::mc_result<double>>::const_iterator>(std::vector<hep::mc_result<double>>::const_iterator, std::vector<hep::mc_result<double>>::const_iterator);
